@@ -103,9 +103,21 @@ def registry():
     for m in drivers:
         ps = inspect.signature(D._SPLIT_FNS[m]).parameters
         caps[m] = {k: (k in ps) for k in ("absorb", "max_bond", "cutoff", "cutoff_mode", "renorm", "info")}
+    canon_of = {"auto": "auto"}
+    for code, names in by_code.items():
+        word = None if None in names else names[-1]
+        for n in names:
+            canon_of[n] = word
     _REG = {"drivers": drivers, "methods": drivers + aliases, "forms": forms, "modes": modes, "caps": caps,
-            "codes": {(n if n is not None else None): c for c, ns in by_code.items() for n in ns}}
+            "codes": {(n if n is not None else None): c for c, ns in by_code.items() for n in ns},
+            "canon": canon_of, "spellings": {w: [n for n in canon_of if canon_of[n] == w and n != "auto"] for w in set(canon_of.values())}}
     return _REG
+
+
+def canon(form):
+    """Canonical word ('left', 'lorthog', ..., None, 'auto') of any documented spelling ('Us,VH', 'U', 'U,s,VH', ...),
+    read from decomp._ABSORB_MAP."""
+    return registry()["canon"][form]
 
 
 def form_code(form):
@@ -221,6 +233,17 @@ def make_input(seed, kind, m, n, dtype, rank=None):
         # exactly Hermitian after the cast as well
         x = ((x + x.conj().T) / 2).astype(np.dtype(dtype))
     return x
+
+
+SCALES64 = (0, 0, 0, 0, 8, -8, 10, -5)
+SCALES32 = (0, 0, 0, 0, 3, -3, 4)
+
+
+def scaled(x, e):
+    """x * 10**e in x's dtype (all oracles are relative to the norm of x)."""
+    if not e:
+        return x
+    return (x * (10.0 ** int(e))).astype(x.dtype)
 
 
 def shape_class(m, n):
@@ -343,6 +366,7 @@ def herm(x):
 def plan(method, form, max_bond, cutoff):
     """(driver, effective form, caps, form_ignored) from the documented resolution rules."""
     reg = registry()
+    form = canon(form)
     truncation = ((max_bond or -1) > 0) or ((cutoff if cutoff is not None else -1.0) > 0.0)
     driver, rform = resolve_method(method, form, truncation)
     caps = reg["caps"][driver]
@@ -802,6 +826,8 @@ def std_classes(case, out, x):
         c.append("rank-deficient")
     if out["promoted"]:
         c.append("dtype-promoted")
+    if case.get("scale_e"):
+        c.append("scale=1e%+d" % case["scale_e"])
     return c
 
 
@@ -845,13 +871,14 @@ def s_untruncated(draw, tier):
         m, n = draw(s_shape())
         kind = draw(st.sampled_from(GENERAL_KINDS))
     return {"method": method, "form": form, "dtype": dtype, "m": m, "n": n, "kind": kind, "seed": draw(A.seeds),
-            "rank": draw(st.integers(1, 3)), "cutoff_none": draw(st.booleans())}
+            "rank": draw(st.integers(1, 3)), "cutoff_none": draw(st.booleans()),
+            "scale_e": draw(st.sampled_from(SCALES32 if is_single(dtype) else SCALES64))}
 
 
 def run_untruncated(case):
     method, form = case["method"], case["form"]
     driver, eff, caps, _ = plan(method, form, None, 0.0)
-    x = make_input(case["seed"], case["kind"], case["m"], case["n"], case["dtype"], rank=case["rank"])
+    x = scaled(make_input(case["seed"], case["kind"], case["m"], case["n"], case["dtype"], rank=case["rank"]), case.get("scale_e", 0))
     if not in_domain(driver, eff, *x.shape):
         raise Reject("outside documented domain")
     info = std_info(case, x, driver, eff)
@@ -901,12 +928,13 @@ def s_truncated(draw, tier):
             "rank": draw(st.integers(1, 4)), "mode": draw(st.sampled_from(reg["modes"])), "style": style,
             "kt": draw(st.integers(1, 7)), "jitter": draw(st.sampled_from([1.0, 1.0, 0.7, 1.3])),
             "raw": draw(st.floats(-12.0, 0.3)), "max_bond": draw(st.sampled_from([None, None, 1, 2, 3, 4, 6, 9])),
-            "renorm": draw(st.sampled_from([None, 0, False, True, 1, 2])), "want_info": draw(st.booleans())}
+            "renorm": draw(st.sampled_from([None, 0, False, True, 1, 2])), "want_info": draw(st.booleans()),
+            "scale_e": draw(st.sampled_from(SCALES32 if is_single(dtype) else SCALES64))}
 
 
 def run_truncated(case):
     method, form, mode = case["method"], case["form"], case["mode"]
-    x = make_input(case["seed"], case["kind"], case["m"], case["n"], case["dtype"], rank=case["rank"])
+    x = scaled(make_input(case["seed"], case["kind"], case["m"], case["n"], case["dtype"], rank=case["rank"]), case.get("scale_e", 0))
     s0 = np.linalg.svd(x.astype(np.complex128), compute_uv=False)
     d = len(s0)
     mb = case["max_bond"]
@@ -946,12 +974,19 @@ def s_iterative(draw, tier):
     herm_ = method in HERMITIAN_ONLY
     m, n = draw(s_shape(square=herm_, lo=3, hi=12))  # scipy's interpolative estimate_rank fails on 2-row inputs
     r = draw(st.integers(1, min(3, m, n)))
-    req = draw(st.sampled_from(["cap", "cap", "cap+cutoff", "cutoff"]))
+    req = draw(st.sampled_from(["cap", "cap", "cap+cutoff", "cutoff", "dense-trunc"]))
     if not registry()["caps"][method]["cutoff"]:
         req = "cap"
+    if req == "dense-trunc" and not uses_choose_k(method):
+        req = "cap"  # only the drivers with a dense fallback (decomp._choose_k -> 'full') are exact under a binding cap
+    kind = "psd_lowrank" if herm_ else "lowrank"
+    if req == "dense-trunc":
+        # a cap above d//2 sends the driver to its dense fallback: a plain full-spectrum decomposition of a full-rank
+        # input, so rule / optimality / renormalisation are promised exactly as for svd / eigh
+        kind = "psd_geo" if herm_ else "geometric"
     return {"method": method, "form": form, "dtype": draw(st.sampled_from(A.DTYPES)), "m": m, "n": n, "rank": r,
-            "kind": "psd_lowrank" if herm_ else "lowrank", "seed": draw(A.seeds), "req": req,
-            "slack": draw(st.integers(0, 2)), "mode": draw(st.sampled_from(reg["modes"]))}
+            "kind": kind, "seed": draw(A.seeds), "req": req, "slack": draw(st.integers(0, 2)),
+            "mode": draw(st.sampled_from(reg["modes"])), "renorm": draw(st.sampled_from([None, None, True, 1, 2]))}
 
 
 def run_iterative(case):
@@ -961,6 +996,10 @@ def run_iterative(case):
     single = is_single(case["dtype"])
     mb = min(d, case["rank"] + case["slack"]) if "cap" in case["req"] else None
     co = (1e-3 if single else 1e-8) if "cutoff" in case["req"] else 0.0
+    renorm = None
+    if case["req"] == "dense-trunc":
+        mb = min(d - 1, d // 2 + 1 + case["slack"])  # d >= 3: d//2 < mb < d
+        renorm = case.get("renorm")
     driver, eff, caps, _ = plan(method, form, mb, co)
     if driver in HERMITIAN_ONLY and eff in SQRT_FORMS and case["req"] == "cap":
         mb = min(d, case["rank"])  # sqrt of a kept (numerically) zero eigenvalue: finding C05-i, owned by `untruncated`
@@ -968,13 +1007,69 @@ def run_iterative(case):
     # rank the driver will target: with a cutoff _choose_k estimates the numerical rank (capped), otherwise the cap
     k_req = min(case["rank"], mb or d) if co > 0 else mb
     info["sparse_branch"] = bool(uses_choose_k(driver) and k_req <= d // 2)
+    info["req"] = case["req"]
+    info["renorm_on"] = bool(renorm)
     extra = {"seed": case["seed"] % 1000} if driver == "svd:rand" else None
     try:
-        out = guarded_cell(x, method, form, info, max_bond=mb, cutoff=co, mode=case["mode"], extra=extra)
+        out = guarded_cell(x, method, form, info, max_bond=mb, cutoff=co, mode=case["mode"], renorm=renorm, extra=extra)
     except CellReject as r:
         raise Reject("refused:" + r.why)
     cls = std_classes(case, out, x) + ["req=" + case["req"]] + (["sparse-branch"] if info["sparse_branch"] else ["dense-branch"])
+    if renorm:
+        cls.append("renorm=" + repr(renorm))
     return {"nt": True, "cls": cls, "err": out["err"]}
+
+
+# ---------------------------------------------------------------------------
+# 4b. every documented spelling of every form, at array level and at tensor level (exhaustive)
+# ---------------------------------------------------------------------------
+
+SPELL_METHODS = ("svd", "svd:eig", "qr", "eigh", "auto")
+
+
+def enum_spellings(tier):
+    reg = registry()
+    for word, names in sorted(reg["spellings"].items(), key=lambda kv: str(kv[0])):
+        if word == "auto":
+            continue
+        for name in names:
+            for method in SPELL_METHODS:
+                drv, eff, caps, _ = plan(method, name, None, 0.0)
+                if not form_supported(drv, eff):
+                    continue
+                for dtype in ("float64", "complex64") if drv not in LOSSY else ("float64", "complex128"):
+                    for trunc in ("none", "cap"):
+                        if trunc == "cap" and not caps["max_bond"]:
+                            continue
+                        yield {"level": "array", "spelling": name, "method": method, "dtype": dtype, "trunc": trunc}
+                        if word in TS_FORMS:
+                            two = FORM_RETURNS[word][0] and FORM_RETURNS[word][2]
+                            for get in ([None, "tensors", "arrays"] if two else ["tensors", "arrays"]):
+                                yield {"level": "tensor", "spelling": name, "method": method, "dtype": dtype, "trunc": trunc, "get": get}
+
+
+def run_spellings(case):
+    name, method, dtype = case["spelling"], case["method"], case["dtype"]
+    drv, eff, caps, _ = plan(method, name, None, 0.0)
+    herm_ = drv in HERMITIAN_ONLY
+    kind = ("psd_geo" if eff in SQRT_FORMS else "herm_geo") if herm_ else "geometric"
+    if case["level"] == "array":
+        x = make_input(5, kind, 4 if herm_ else 6, 4, dtype)
+        info = dict(method=method, form=str(name), canonical=str(eff), level="array", single=is_single(dtype), dclass=dclass(drv))
+        try:
+            out = guarded_cell(x, method, name, info, max_bond=2 if case["trunc"] == "cap" else None, cutoff=0.0)
+        except CellReject as r:
+            raise Reject("refused:" + r.why)
+        return {"nt": name != eff, "cls": ["level=array", "form=" + str(eff), "alias" if name != eff else "canonical"], "err": out["err"]}
+    tcase = {"method": method, "form": name, "dtype": dtype, "kind": kind, "seed": 5, "dims_l": [2, 2] if herm_ else [3, 2], "dims_r": [2, 2],
+             "store": [2, 0, 3, 1], "lorder": [1, 0], "get": case["get"], "trunc": "cap" if case["trunc"] == "cap" else "zero-cutoff",
+             "max_bond": 2, "bond": None, "msv": False, "tags": True, "give_right": "no", "rank": 2, "entry": "method"}
+    try:
+        out = run_tensor_split(tcase)
+    except Violation as v:
+        raise Violation(v.reason, **dict(v.info, level="tensor", canonical=str(eff))) from v
+    return {"nt": name != eff, "cls": ["level=tensor", "get=" + str(case["get"]), "form=" + str(eff), "alias" if name != eff else "canonical"],
+            "err": out["err"]}
 
 
 # ---------------------------------------------------------------------------
@@ -1076,9 +1171,10 @@ def run_tensor_split(case):
         kw["cutoff_mode"] = "rel"
     if driver.startswith("polar") and M != N:
         raise Reject("non-square polar (finding C05-d is owned by `table`)")
+    cform = canon(form)
     if case["bond"] is not None and case["get"] in (None, "tensors"):
-        kw["bond_ind"] = (case["bond"] + "L", case["bond"] + "R") if (case["msv"] and form is None) else case["bond"]
-    if case["msv"] and form is None:
+        kw["bond_ind"] = (case["bond"] + "L", case["bond"] + "R") if (case["msv"] and cform is None) else case["bond"]
+    if case["msv"] and cform is None:
         kw["matrix_svals"] = True
     if case["tags"]:
         kw.update(ltags=["LT"], rtags=["RT"], stags=["ST"])
@@ -1116,7 +1212,7 @@ def run_tensor_split(case):
         if not e <= tol:
             raise Violation("values", err=e, tol=tol, **info)
         return {"nt": True, "cls": ["get=values", "method=" + method], "err": e}
-    sep = form is None
+    sep = cform is None
     parts = list(res.tensors) if isinstance(res, Q.TensorNetwork) else list(res)
     if case["get"] is None:
         if not isinstance(res, Q.TensorNetwork):
@@ -1125,7 +1221,9 @@ def run_tensor_split(case):
         Tl = next((t for t in parts if set(left) <= set(t.inds)), None)
         Tr = next((t for t in parts if set(right) <= set(t.inds)), None)
         Ts = next((t for t in parts if t is not Tl and t is not Tr), None)
-        if (len(parts) != (3 if sep else 2)) or Tl is None or Tr is None:
+        if len(parts) != (3 if sep else 2):
+            raise Violation("parts-returned", n=len(parts), **info)
+        if Tl is None or Tr is None:
             raise Violation("network-parts", n=len(parts), **info)
     else:
         if len(parts) != (3 if sep else 2):
@@ -1450,6 +1548,10 @@ SUBCHECKS = [
     SubCheck("iterative", run_iterative, s_iterative, examples=(400, 6000), shards=(1, 4),
              rule="svds / isvd / rsvd / eigsh / svd:rand on exactly rank-r inputs (3..12) with cap >= r and/or a tiny cutoff, sparse and dense "
                   "branches; all nt (rank-deficient by construction)"),
+    SubCheck("spellings", run_spellings, enum=enum_spellings, exhaustive=True, shards=(2, 2),
+             rule="every string spelling registered in decomp._ABSORB_MAP (long 'U,s,VH' / 'Us,VH' / ... and short 'left' / 'lorthog' / ...) + None "
+                  "x {svd, svd:eig, qr, eigh, auto} x 2 dtypes x {none, cap}, at array level (array_split) and, for the forms tensor_split documents, "
+                  "at tensor level for every `get`; same oracle as for the canonical word; nt: the spelling is an alias"),
     SubCheck("tensor_split", run_tensor_split, s_tensor_split, examples=(400, 6000), shards=(2, 6),
              rule="Tensor.split / tensor_split on rank 2-5 tensors, random bipartition, stored axis order, left order, right_inds, get in "
                   "{None, tensors, arrays, values}, bond_ind, matrix_svals, tags: labels, bond, tags, left_inds flags (iso_defect), value of the "
